@@ -638,9 +638,13 @@ impl Imp {
                 if let Some(n) = len {
                     let data: Vec<u8> = (0..*n).map(|i| fill_byte(*seed, i as u32)).collect();
                     std::fs::write(&path, data).unwrap();
+                } else if *seed == 1 {
+                    // a path that can be opened but not read: a directory (still an error value, nothing changes)
+                    std::fs::create_dir_all(&path).ok();
                 }
                 let r = std::panic::catch_unwind(std::panic::AssertUnwindSafe(|| self.cpu.bus.load_bin(&path, *org)));
                 let _ = std::fs::remove_file(&path);
+                let _ = std::fs::remove_dir(&path);
                 match r {
                     Err(e) => std::panic::resume_unwind(e),
                     Ok(Ok(n)) => format!("V {}", n),
